@@ -34,6 +34,8 @@ pub struct Wire {
     pub rx: VecDeque<Rx>,
     /// Bytes of the front `Rx::Bytes` chunk already handed out.
     pub rx_off: usize,
+    /// Which error an `Rx::Err` event produces: 0 = `Io(ConnectionReset)`, 1 = `SocketRead`, 2 = `Io(TimedOut)`.
+    pub err_kind: u8,
     /// What to do when `rx` is empty: `true` = `Ok(0)`, `false` = `Pending` (idle live peer).
     pub eof_when_empty: bool,
     /// Number of `read` polls (including those that returned `Pending`).
@@ -146,7 +148,13 @@ impl ReadHalf for VRead {
                         return Poll::Pending;
                     }
                     Some(Rx::Eof) => return Poll::Ready(Ok(0)),
-                    Some(Rx::Err) => return Poll::Ready(Err(io_err())),
+                    Some(Rx::Err) => {
+                        return Poll::Ready(Err(match w.err_kind {
+                            1 => zlink_core::Error::SocketRead,
+                            2 => zlink_core::Error::Io(std::io::Error::new(std::io::ErrorKind::TimedOut, "injected fault")),
+                            _ => io_err(),
+                        }))
+                    }
                     Some(Rx::Bytes(_)) => {
                         let off = w.rx_off;
                         let Some(Rx::Bytes(chunk)) = w.rx.front() else { unreachable!() };
